@@ -42,7 +42,9 @@ THEOREMS = ['C17_solver_steps', 'C17_inter_ok_decidable', 'C17_roots_enclosed', 
             'C17_hi_enclosed_when_disjoint', 'C17_not_nested_when_separated',
             'C17_none_when_negative', 'C17_some_iff', 'C17_some_iff_disc_operands',
             'C17_some_when_margin', 'C17_some_when_relative_margin',
-            'C17_pinned_refuted', 'C17_q_zero_refuted', 'C17_q_zero_sphere_refuted']
+            'C17_pinned_refuted', 'C17_q_zero_refuted', 'C17_q_zero_sphere_refuted',
+            # the same on primitive floats (Properties/C17_prim.v)
+            'C17_prim_run_is_flocq_run', 'C17_prim_roots_enclosed', 'C17_prim_each_root_enclosed']
 
 
 def streams(tier):
